@@ -124,8 +124,13 @@ func (p *Path) floatToken(f sym, bits int, fr *frame, fmtByte byte) []value {
 			return bytesToValues([]byte("-Inf"))
 		}
 	}
+	ck := fmt.Sprintf("float:%d:%d:%c", t.id, bits, fmtByte)
+	if cached, ok := p.tokCache[ck]; ok {
+		return append([]value{}, cached...) // the same value always formats to the same text
+	}
 	tk := p.newToken("float", t, w)
 	var out []value
+	defer func() { p.tokCache[ck] = append([]value{}, out...) }()
 	signbit := fpSignTerm(t)
 	if fr.cond(valueOf(signbit, types.Bool)) {
 		out = append(out, byte('-'))
@@ -252,6 +257,14 @@ func init() {
 		}
 		// symbolic payload: token bytes over the base64 alphabet, padded length 4*ceil(n/3)
 		p := fr.i.p
+		ck := "b64"
+		for _, e := range src {
+			t, _ := termOf(e)
+			ck += fmt.Sprintf(":%d", t.id)
+		}
+		if cached, ok := p.tokCache[ck]; ok {
+			return mkStr(append([]value{}, cached...)) // the same bytes always encode to the same text
+		}
 		tk := p.newToken("b64", nil, len(src))
 		srcCopy := append([]value{}, src...)
 		tk.render = func(ev *evaluator) string {
@@ -267,6 +280,7 @@ func init() {
 		for i := range out {
 			out[i] = p.tokByte(tk, [2]byte{'A', 'Z'}, [2]byte{'a', 'z'}, [2]byte{'0', '9'}, [2]byte{'+', '+'}, [2]byte{'/', '/'}, [2]byte{'=', '='})
 		}
+		p.tokCache[ck] = append([]value{}, out...)
 		return mkStr(out)
 	}
 
@@ -279,6 +293,10 @@ func init() {
 	I["(time.Duration).String"] = func(fr *frame, args []value) value {
 		if s, ok := args[0].(sym); ok {
 			p := fr.i.p
+			ck := fmt.Sprintf("dur:%d", s.t.id)
+			if cached, ok := p.tokCache[ck]; ok {
+				return mkStr(append([]value{}, cached...))
+			}
 			tk := p.newToken("dur", s.t, 64)
 			tk.render = func(ev *evaluator) string {
 				return strings.TrimPrefix(time.Duration(int64(ev.eval(s.t))).String(), "-")
@@ -289,6 +307,7 @@ func init() {
 				out = append(out, byte('-'))
 			}
 			out = append(out, p.tokByte(tk, digit), p.tokByte(tk, [2]byte{'a', 'z'}, [2]byte{'.', '.'}, digit), p.tokByte(tk, [2]byte{'s', 's'}))
+			p.tokCache[ck] = append([]value{}, out...)
 			return mkStr(out)
 		}
 		return time.Duration(args[0].(int64)).String()
@@ -404,6 +423,11 @@ func timeFormat(fr *frame, t value, layout value) value {
 	// layout length (a representative: formatting never looks at the length)
 	p := fr.i.p
 	wall, _ := termOf(st[0])
+	ext, _ := termOf(st[1])
+	ck := fmt.Sprintf("time:%d:%d:%p:%s", wall.id, ext.id, st[2], l)
+	if cached, ok := p.tokCache[ck]; ok {
+		return mkStr(append([]value{}, cached...)) // the same instant and layout always format to the same text
+	}
 	tk := p.newToken("time", wall, 64)
 	stCopy := append(structure{}, st...)
 	tk.render = func(ev *evaluator) string {
@@ -425,6 +449,7 @@ func timeFormat(fr *frame, t value, layout value) value {
 	for i := range out {
 		out[i] = p.tokByte(tk, digit, [2]byte{'A', 'Z'}, [2]byte{'a', 'z'}, [2]byte{':', ':'}, [2]byte{'+', '+'}, [2]byte{'-', '.'}, [2]byte{' ', ' '})
 	}
+	p.tokCache[ck] = append([]value{}, out...)
 	return mkStr(out)
 }
 
